@@ -166,7 +166,7 @@ successful flush deletes that log (`cleanup_up_to(segment_id + 1)`, the arithmet
 C01-wal-segment-id-skew), and a crash then loses acknowledged, visible events. Witness
 (capacity 2): two stores rotate, the flush fails, two more stores rotate and flush; events 1 and 2
 are visible before the kill and gone after the restart. Replayed on the real engine by a witness
-of the `crash` stream, which also draws failing flushes at random. -/
+of the `crash` stream. -/
 theorem C01_failed_flush_then_crash_loses_fails :
     ∃ ops : List FOp,
       1 ∈ visibleKeys (runF (Shard.init 2 2) ops) ∧
